@@ -162,6 +162,7 @@ class Elab:
         self.steps = 0
         self.hints = {}
         self.callname = []
+        self.nest = 0
         self.calltrace = []     # (function name, args, kwargs, selfobj) of every inlined call
 
     # ------------------------------------------------------------------------------------------
@@ -1580,26 +1581,32 @@ class Elab:
         pushed = False
         if f.selfobj is not None and f.selfobj.kind == "inst" and f.selfobj is not self.cur_inst():
             self.inst_stack.append(f.selfobj); pushed = True
-        self.depth += 1
+        # a method of the instance under elaboration called from its own __init__ names its objects like __init__ does
+        flat = (f.selfobj is not None and f.selfobj is self.cur_inst() and f.clsv is not None and not pushed and self.depth == 0
+                and f.node.name not in ("__init__",) and self.nest < 40)
+        if not flat:
+            self.depth += 1
+        self.nest += 1
         k = self.call_counts.get(f.name, 0) + 1
         self.call_counts[f.name] = k
-        if not hasattr(self, "callname"):
-            self.callname = []
-        self.callname.append("%s#%d" % (f.name.split(".")[-1], k))
+        if not flat:
+            self.callname.append("%s#%d" % (f.name.split(".")[-1], k))
         ncfg = len(self.cfg)
         try:
             r = self.run_body(f.node.body, fenv)
         finally:
             del self.cfg[ncfg:]
-            self.callname.pop()
-            self.depth -= 1
+            if not flat:
+                self.callname.pop()
+                self.depth -= 1
+            self.nest -= 1
             if pushed:
                 self.inst_stack.pop()
             self.file = saved_file
         return r if r is not None else Const(None)
 
     def depth_total(self):
-        return self.depth + len(self.inst_stack)
+        return self.depth + len(self.inst_stack) + self.nest // 4
 
     def instantiate(self, clsv, args, kwargs, n=None, name=None):
         """Elaborate a repository class: run its __init__ symbolically with `self` = a fresh instance."""
